@@ -110,4 +110,20 @@ theorem ledger_observed (e : Env) (G : Block) (w0 : World) (evs : List Ev) (H : 
   rw [ledger_ready e G w0 evs H h0 hv0 hq0]
   exact hw
 
+/-- WHY `reorgNonempty` IS A HYPOTHESIS: a bare detach (`reorgTo 1 []`: the node drops its tip and announces
+    nothing) leaves the queue empty and the wallet on the old chain – the conclusion of `ledger_correct` fails. -/
+theorem bare_detach_breaks (e : Env) (w0 : World) (h0 : Inv (e.ctx w0.chain) w0.s w0.chain)
+    (hq0 : w0.queue = []) (hlen : 2 ≤ w0.chain.length) :
+    (runW e w0 [.reorgTo 1 []]).queue = [] ∧
+      ¬ Inv (e.ctx (runW e w0 [.reorgTo 1 []]).chain) (runW e w0 [.reorgTo 1 []]).s
+          (runW e w0 [.reorgTo 1 []]).chain := by
+  have hr : runW e w0 [.reorgTo 1 []] =
+      { w0 with chain := w0.chain.take (w0.chain.length - 1) ++ [], queue := w0.queue ++ [] } := rfl
+  rw [hr]
+  refine ⟨by simp [hq0], fun h => ?_⟩
+  have h1 := h.syncedTo
+  have h2 := h0.syncedTo
+  simp only [List.append_nil, List.length_take] at h1
+  omega
+
 end MW.Lemmas.Ledger
